@@ -3,12 +3,13 @@ CONSTANTS
   Names = {"alice", "bob"}
   Pws = {"Secret1", "secret1", "LONG"}
   LongPws = {"LONG"}
+  Pw72 = {}
   ExtraCands = {"", "SECRET1"}
-  PermSets = {{}, {"ego.logon"}, {"other"}}
+  PermSets = {{"ego.logon"}, {"other"}}
   InitFmts = {"bcrypt", "sha", "plain"}
-  InitCosts = {4, 12}
+  InitCosts = {4}
   Spellings = {"exact", "upper", "padded", "empty"}
-  CandKinds = {"lit", "stored", "cyc", "braced", "hashof"}
+  CandKinds = {"lit", "stored", "cyc"}
   MaxVer = 2
   Impl = "code"
 INVARIANTS TypeOK
